@@ -351,6 +351,11 @@ theorem matches_shapeAnyEmpty (s : List UInt8) :
 
 end shapes
 
+/-- The executable rule used by the driver's `rule` request decides `rule`. -/
+theorem ruleB_iff (strict : Bool) (p : Policy) (s : List UInt8) :
+    ruleB strict p s = true ↔ rule strict p s := by
+  cases p <;> simp [ruleB, rule, emptiness, List.all_eq_true]
+
 /-! ### The two byte classes of the generated patterns -/
 
 def looseC : ByteClass :=
